@@ -24,6 +24,9 @@ import time
 import z3
 
 
+FAST_MS = 400
+
+
 class PathAbort(BaseException):
     """Current path is infeasible (or cut by the harness); not an error."""
 
@@ -50,8 +53,12 @@ class Ctx(object):
         self.pc = []                 # path condition (list of z3 Bool)
         self.solver = z3.Solver()
         self.query_timeout_ms = query_timeout_ms
-        if query_timeout_ms:
-            self.solver.set("timeout", int(query_timeout_ms))
+        # incremental queries get a short budget; when it is exceeded the
+        # query is repeated by a fresh one-shot solver (z3's one-shot
+        # strategy on UF+BV is far stronger than its incremental core)
+        self.solver.set("timeout", FAST_MS)
+        self.model_solver = self.solver
+        self.extra_stack = []
         self.nq = 0
         self.tsolve = 0.0
         self.unknown = 0
@@ -62,10 +69,27 @@ class Ctx(object):
         self.nq += 1
         t = time.time()
         r = self.solver.check(*extra)
+        self.model_solver = self.solver
+        if r == z3.unknown:
+            s = z3.Solver()
+            if self.query_timeout_ms:
+                s.set("timeout", int(self.query_timeout_ms))
+            for lit in self.pc:
+                s.add(lit)
+            for grp in self.extra_stack:
+                for lit in grp:
+                    s.add(lit)
+            for e in extra:
+                s.add(e)
+            r = s.check()
+            self.model_solver = s
         self.tsolve += time.time() - t
         if r == z3.unknown:
             self.unknown += 1
         return r
+
+    def get_model(self):
+        return self.model_solver.model()
 
 
 class ConcreteCtx(object):
@@ -677,22 +701,25 @@ def concretize(si):
     else:
         vals = []
         c.solver.push()
-        while True:
-            r = c.check()
-            if r == z3.unknown:
-                c.solver.pop()
-                raise Unsupported("solver unknown while concretising")
-            if r != z3.sat:
-                break
-            v = c.solver.model().eval(e, model_completion=True)
-            v = v.as_signed_long()
-            vals.append(v)
-            c.solver.add(e != v)
-            if len(vals) > MAX_CONCRETIZE:
-                c.solver.pop()
-                raise Unsupported("concretize: more than %d feasible values"
-                                  % MAX_CONCRETIZE)
-        c.solver.pop()
+        c.extra_stack.append([])
+        try:
+            while True:
+                r = c.check()
+                if r == z3.unknown:
+                    raise Unsupported("solver unknown while concretising")
+                if r != z3.sat:
+                    break
+                v = c.get_model().eval(e, model_completion=True)
+                v = v.as_signed_long()
+                vals.append(v)
+                c.solver.add(e != v)
+                c.extra_stack[-1].append(e != v)
+                if len(vals) > MAX_CONCRETIZE:
+                    raise Unsupported("concretize: more than %d feasible "
+                                      "values" % MAX_CONCRETIZE)
+        finally:
+            c.extra_stack.pop()
+            c.solver.pop()
         if not vals:
             raise PathAbort()
         vals.sort()
